@@ -3,8 +3,8 @@ import math
 
 from hypothesis import strategies as st
 
-from .. import gen, procs
-from ..core import Discard, Part, Violation, is_raised
+from .. import build, gen, procs
+from ..core import Discard, Part, Violation, call, is_raised
 from ..observe import EvaluationCap, Trace
 
 ID = "C18"
@@ -47,6 +47,18 @@ def strategy(draw, kinds, max_steps=8):
         c["degenerate"] = True
         c["force_dt"] = draw(st.sampled_from([1.0, 1.0, 0.1, None]))  # a plain step length (not scaled to the astronomically large flux)
         c["area"], c["amount"] = 1.0, 1.0
+    if not c.get("degenerate") and draw(st.integers(0, 9)) == 0:
+        # NON-SELECTIVE membrane (permeate composition = feed composition, resolved in the check from the feed partial pressures):
+        # the feed composition stays put, so BOTH components are over-drawn at the same step and the feed runs out CUMULATIVELY
+        # over several coarse steps, none of which removes the whole feed - nothing but the mass itself can signal the exhaustion
+        c["nonselective"] = {"p2": draw(gen.loguniform(1e-3, 0.1))}
+        c["removal"] = draw(gen.uniform(0.3, 0.97))
+        c["steps"] = min(int(math.ceil(1.0 / c["removal"])) + draw(st.integers(1, 2)), max_steps)
+        c["perm"] = {"mode": "vacuum", "T": None, "p": None}
+        c["program"] = None
+        c["coarse"] = True
+        c["x"], c["basis"] = draw(gen.uniform(0.2, 0.8)), "weight"
+        return c
     roll = draw(st.integers(0, 19))
     if c["kind"].endswith("noniso") and roll < 2:
         # a temperature programme that runs below 0 K within the requested steps (must raise, whatever state it lands on)
@@ -94,9 +106,33 @@ def admissible(model, n, expect_condensation):
     return None
 
 
+def _resolve_nonselective(case):
+    from pyvaporation.mixtures import get_partial_pressures
+
+    mix = build.mixture(case["mixture"])
+    w, t = case["x"], case["T"]
+    pf = call(get_partial_pressures, t, mix, build.composition(w, "weight"), case["model"])
+    if is_raised(pf) or not all(math.isfinite(float(v)) and float(v) > 0 for v in pf):
+        raise Discard("feed partial pressures not finite/positive")
+    p2 = case["nonselective"]["p2"]
+    p1 = p2 * (w / (1.0 - w)) * float(pf[1]) / float(pf[0])
+    if not (1e-9 < p1 < 1e3):
+        raise Discard("non-selective permeance out of range")
+    const = lambda v: {"alpha": v, "a1": 0.0, "a2": 0.0, "b0": 0.0, "b1": 0.0}
+    out = dict(case, membrane=gen.simple_membrane(p1, p2, t=t, ea1=0.0, ea2=0.0))
+    if case["kind"].startswith("nonideal"):
+        out["curves"] = {"truth": [const(p1), const(p2)],
+                         "curves": [{"T": t, "ws": [0.1, 0.3, 0.5, 0.7, 0.9], "basis": "weight", "from": "permeances", "noise": [[0.0, 0.0]] * 5}]}
+        out["initial"] = {"p1": p1, "p2": p2, "units": build.KG}
+        out["orders"] = {"n1": 0, "m1": 0, "n2": 0, "m2": 0}
+    return out
+
+
 def check(case):
+    if case.get("nonselective"):
+        case = _resolve_nonselective(case)
     s = procs.setup(case)
-    classes = procs.classes_of(case) + ["coarse" if case.get("coarse") else "fine"]
+    classes = procs.classes_of(case) + ["coarse" if case.get("coarse") else "fine"] + (["non-selective"] if case.get("nonselective") else [])
     try:
         with Trace(s.pv, cap=60000, keep=False):
             try:
